@@ -4,9 +4,16 @@
 //! here (its deposit logic is C17's).
 //! Worlds with governance-chosen prices / fee bps / airdrop price, native and IBC factory
 //! denom, with and without payment address, optional whitelist with its own price.
-//! Histories are generated *adaptively*: before every mint the generator asks the real
-//! contracts for the price in force and then sends the payment sweep (price-1, price+1,
-//! wrong denom, two coins, nothing / a coin at price 0, exact).  The executed op list is the
+//! LEDGER RULE: the price in force, the fee rates and the whitelist schedule are NOT read back
+//! from the minter under test: the harness keeps its own ledger of what the principals set
+//! (list price at creation + accepted UpdateMintPrice; accepted UpdateDiscountPrice /
+//! RemoveDiscountPrice; the attached whitelist's window and price as instantiated; governance's
+//! airdrop price and fee rates from creation + sudo) and computes the price in force from the
+//! ledger and the clock (`Ledger::price_in_force`).  Monitors judge against that.
+//! Histories are generated *adaptively*: before every mint the generator computes the ledger
+//! price and sends exact payments for every OTHER price some principal set (list, discount,
+//! whitelist, what the minter itself reports if different; sometimes +-1), then the sweep
+//! (price-1, price+1, wrong denom, two coins, nothing / a coin at price 0), then the exact one.  The executed op list is the
 //! case (so a replay re-runs exactly it).  Monitors (`judge`) evaluate the property text on
 //! the bank balances of every tracked account and the supply before/after every step; they
 //! share no code with the model.  Every minter step is also printed for the Coq model
@@ -934,6 +941,25 @@ fn corpus() -> Vec<Case> {
                 Op::UpdateMintPrice { who: CREATOR.into(), price: 70 },
                 mint(BUYERS[2], n(100)),
                 mint(BUYERS[2], n(70)),
+            ],
+            ..base_case(variant)
+        });
+        // no whitelist at all x discount set / price lowered / discount removed
+        v.push(Case {
+            payment_address: variant % 2 == 0,
+            ops: vec![
+                Op::At { secs: 3100, nanos: 0 },
+                Op::UpdateDiscountPrice { who: CREATOR.into(), price: 80 },
+                mint(BUYERS[0], n(100)),
+                mint(BUYERS[0], n(80)),
+                Op::UpdateMintPrice { who: CREATOR.into(), price: 90 },
+                mint(BUYERS[0], n(90)),
+                mint(BUYERS[0], n(80)),
+                Op::At { secs: 3100 + 3700, nanos: 0 },
+                Op::RemoveDiscountPrice { who: CREATOR.into() },
+                mint(BUYERS[1], n(80)),
+                mint(BUYERS[1], n(100)),
+                mint(BUYERS[1], n(90)),
             ],
             ..base_case(variant)
         });
@@ -1943,7 +1969,7 @@ pub fn run(a: &Args) {
     balance_shards(&mut coq_cases, 6);
     balance_shards(&mut coq_cases2, 3);
     rep.distinct_nontrivial = distinct.len() as u64;
-    rep.rule = "sale worlds on each of the six vending minters, the three open-edition minters and the base minter, created through their factories with governance-chosen price / mint fee bps / airdrop price / airdrop fee bps (moved by sudo during the history), native or IBC denom, with/without payment address, optional whitelist with its own price, discount set/removed (vending), capped/uncapped (open edition); before every mint the price in force is queried and the sweep price-1, price+1, wrong denom, two coins, nothing (a coin at price 0), exact is sent; evaluations = minter steps executed on the real contracts; distinct_nontrivial = distinct (variant, mint kind, price, denom, fee bps, seller) among SUCCESSFUL mints".into();
+    rep.rule = "sale worlds on each of the six vending minters, the three open-edition minters and the base minter, created through their factories with governance-chosen price / mint fee bps / airdrop price / airdrop fee bps (moved by sudo during the history), native or IBC denom, with/without payment address, optional whitelist with its own price and a window before / across / long after the public start, discount set/removed and price lowered after the start (vending), capped/uncapped (open edition); the price in force comes from the harness's own ledger of the principals' accepted operations and the clock (never from the minter's MintPrice answer); before every mint exact payments for every other candidate price (list, discount, whitelist, minter-reported) are sent, then the sweep price-1, price+1, wrong denom, two coins, nothing (a coin at price 0), exact is sent; evaluations = minter steps executed on the real contracts; distinct_nontrivial = distinct (variant, mint kind, price, denom, fee bps, seller) among SUCCESSFUL mints".into();
     if !coq_cases.is_empty() {
         out.write_cases("C02", "From LP Require Import Num Pay Sg1 Bank MinterVending SaleCorr.", "scase", "sale_check", &coq_cases, 6, &mut rep);
     }
